@@ -50,7 +50,7 @@ Aligns(PT, T, s, gs, cs, i, j) ==
 Legal(PT, T, s, g, c) ==
     LET p == PT[g] n == T[c] IN
     CASE p.ty = "M" -> (p.mv.ty \in {"capture", "dropped"} /\ p.mv.named) => n.nm
-      [] p.ty = "T" -> KindsMatch(p.kid, n.kid) /\ (~p.nm \/ s = "signature" \/ p.t = n.t)
+      [] p.ty = "T" -> KindsMatch(p.kid, n.kid) /\ (~p.nm \/ s = "signature" \/ TextAgrees(p, n))
       [] OTHER ->
            /\ KindsMatch(p.kid, n.kid)
            /\ n.ch # <<>>
@@ -89,7 +89,7 @@ LegalB(PT, T, s, g, c, bind) ==
     LET p == PT[g] n == T[c] IN
     CASE p.ty = "M" -> /\ ((p.mv.ty \in {"capture", "dropped"} /\ p.mv.named) => n.nm)
                        /\ ((p.mv.ty = "capture" /\ p.mv.name \in DOMAIN bind.single) => TreeEq(T, c, bind.single[p.mv.name]))
-      [] p.ty = "T" -> KindsMatch(p.kid, n.kid) /\ (~p.nm \/ s = "signature" \/ p.t = n.t)
+      [] p.ty = "T" -> KindsMatch(p.kid, n.kid) /\ (~p.nm \/ s = "signature" \/ TextAgrees(p, n))
       [] OTHER ->
            /\ KindsMatch(p.kid, n.kid)
            /\ n.ch # <<>>
